@@ -5,6 +5,7 @@ package store
 import (
 	"context"
 	"errors"
+	"sync"
 
 	zz "github.com/celestiaorg/go-header/internal/zzverif"
 )
@@ -130,4 +131,91 @@ func ZzC14() {
 	if whole {
 		zz.Reach("whole-chain")
 	}
+}
+
+// ZzC14Parallel: the parallel deletion path (threshold lowered to 2 headers) with handlers failing at
+// up to two different heights, which different workers pick up.
+func ZzC14Parallel() {
+	ctx := context.Background()
+	K := zz.Param("K", 4)
+	deleteRangeParallelThreshold = 2
+	cfg := zzCfgsQuick[zz.Choice("cfg", 2)*3] // batch 1 / plain or batch 64 / context-aware
+	d := zzNewMemDS()
+	s := zzOpen(d, cfg)
+	chain := zzChain(cfg.base, K+1)
+	zz.Assert(s.Append(ctx, chain...) == nil, "Append ok")
+	zz.Assert(s.Stop(ctx) == nil, "Stop ok") // everything on disk
+	s = zzOpen(d, cfg)
+	tailH, headH := chain[0].H, chain[K].H
+	// tail-side deletion of 2..K headers
+	to := tailH + 2 + uint64(zz.Choice("len", K-1))
+	// handlers fail for the heights of this set (none, one or two of them)
+	failing := map[uint64]bool{}
+	if nf := zz.Choice("failing", 3); nf > 0 {
+		a := tailH + uint64(zz.Choice("fail.a", int(to-tailH)))
+		failing[a] = true
+		if nf > 1 {
+			failing[tailH+uint64(zz.Choice("fail.b", int(to-tailH)))] = true
+		}
+	}
+	armed := true
+	okCalls := map[uint64]int{}
+	var mu sync.Mutex // handlers run on several workers at once
+	s.OnDelete(func(ctx context.Context, height uint64) error {
+		g, err := s.GetByHeight(ctx, height)
+		zz.Assert(err == nil && g != nil && g.H == height, "a handler must find its header readable through GetByHeight")
+		mu.Lock()
+		defer mu.Unlock()
+		if armed && failing[height] {
+			return zzErrHandler
+		}
+		okCalls[height]++
+		return nil
+	})
+	err := s.DeleteRange(ctx, tailH, to)
+	zz.Reach("parallel-delete")
+	if len(failing) == 0 {
+		zz.Assert(err == nil, "deletion without faults succeeds")
+	} else {
+		zz.Reach("parallel-failed")
+		zz.Assert(err != nil, "a handler error is returned by DeleteRange")
+	}
+	tail, terr := s.Tail(ctx)
+	zz.Assert(terr == nil, "Tail is present after a tail-side deletion")
+	if terr != nil {
+		return
+	}
+	zz.Assert(tail.H <= headH, "Tail <= Head")
+	for i := 0; i <= K; i++ {
+		h := chain[i]
+		bh, bx, _ := zzReadable(ctx, s, h)
+		if h.H >= to {
+			zz.Assert(bh && bx, "headers outside the range are untouched")
+			continue
+		}
+		if failing[h.H] {
+			zz.Assert(bh && bx, "a header whose handler failed must stay readable")
+		}
+		if bh || bx {
+			zz.Assert(h.H >= tail.H, "a header that was kept must not end up below Tail (a retry could never reach it)")
+		} else {
+			zz.Assert(okCalls[h.H] == 1, "every handler runs exactly once, with nil result, for each removed header")
+		}
+	}
+	// (after a partial failure the parallel path may already have removed heights above the failed one;
+	// C14 does not speak about that, see DESIGN section 12)
+	if len(failing) > 0 {
+		// retry: the handlers are invoked again for what was kept and the deletion completes
+		armed = false
+		err2 := s.DeleteRange(ctx, tail.H, to)
+		zz.Assert(err2 == nil, "retrying the tail-side deletion completes it")
+		for i := 0; i <= K; i++ {
+			if chain[i].H < to {
+				bh, bx, _ := zzReadable(ctx, s, chain[i])
+				zz.Assert(!bh && !bx, "after the retry the whole range is removed")
+			}
+		}
+		zz.Reach("parallel-retried")
+	}
+	zz.Assert(s.Stop(ctx) == nil, "Stop ok")
 }
